@@ -1,6 +1,7 @@
 package main
 
 import (
+	"github.com/mmcloughlin/avo/build"
 	"encoding/json"
 	"fmt"
 	"math"
@@ -268,6 +269,78 @@ func goroot() string {
 	return strings.TrimSpace(string(out))
 }
 
+// builderSections: data placed through build.Context: every constructor of a section (StaticGlobal,
+// GlobalData, ConstData) makes that section the one later DATA/AppendDatum calls go to
+func builderSections(c *Ctx, rng *RNG) {
+	o := c.Out
+	for k := 0; k < 40; k++ {
+		ctx := build.NewContext()
+		type sec struct {
+			name string
+			data [][2]int // offset, size
+		}
+		var want []*sec
+		var cur *sec
+		var desc []string
+		for j := 0; j < 2+rng.Intn(6); j++ {
+			switch rng.Intn(5) {
+			case 0:
+				cur = &sec{name: fmt.Sprintf("s%d_%d", k, j)}
+				want = append(want, cur)
+				ctx.StaticGlobal(cur.name)
+				desc = append(desc, "StaticGlobal("+cur.name+")")
+			case 1:
+				cur = &sec{name: fmt.Sprintf("k%d_%d", k, j), data: [][2]int{{0, 8}}}
+				want = append(want, cur)
+				ctx.ConstData(cur.name, operand.U64(uint64(j)))
+				desc = append(desc, "ConstData("+cur.name+", U64)")
+			default:
+				if cur == nil {
+					continue
+				}
+				if rng.Bool() {
+					off := 0
+					for _, d := range cur.data {
+						if d[0]+d[1] > off {
+							off = d[0] + d[1]
+						}
+					}
+					cur.data = append(cur.data, [2]int{off, 4})
+					ctx.AppendDatum(operand.U32(7))
+					desc = append(desc, "AppendDatum(U32)")
+				} else {
+					off := 64 + 8*len(cur.data)
+					cur.data = append(cur.data, [2]int{off, 8})
+					ctx.AddDatum(off, operand.U64(9))
+					desc = append(desc, fmt.Sprintf("AddDatum(%d, U64)", off))
+				}
+			}
+		}
+		f, err := ctx.Result()
+		idx := o.AddCase(Case{Key: "data:builder-sections", Desc: strings.Join(desc, "; "), Input: map[string]any{"calls": desc}, Nontrivial: len(want) >= 2})
+		if err != nil {
+			o.Plan.GoViolations = append(o.Plan.GoViolations, GoViolation{Key: "data:builder-sections:error", Desc: fmt.Sprintf("case %d: valid data requests give an error: %v (%s)", idx, err, strings.Join(desc, "; ")), Replay: map[string]any{"calls": desc}})
+			continue
+		}
+		got := map[string][][2]int{}
+		for _, s := range f.Sections {
+			if g, ok := s.(*ir.Global); ok {
+				var ds [][2]int
+				for _, d := range g.Data {
+					ds = append(ds, [2]int{d.Offset, d.Value.Bytes()})
+				}
+				got[g.Symbol.Name] = ds
+			}
+		}
+		for _, w := range want {
+			if fmt.Sprint(got[w.name]) != fmt.Sprint(w.data) {
+				o.Plan.GoViolations = append(o.Plan.GoViolations, GoViolation{Key: "data:builder-sections:misplaced", Desc: fmt.Sprintf("case %d: section %s holds %v (offset, size) but the calls placed %v there: %s", idx, w.name, got[w.name], w.data, strings.Join(desc, "; ")), Replay: map[string]any{"calls": desc}})
+				break
+			}
+		}
+	}
+}
+
 func c13(c *Ctx) {
 	o := c.Out
 	rng := NewRNG(c.Seed + 1300)
@@ -408,6 +481,7 @@ func c13(c *Ctx) {
 		o.ExpectEmpty(name, "R_replay_violation", "violation", "an overlapping placement was accepted, a disjoint one rejected, or a constant was placed at another offset than requested")
 	}
 	o.Stage(files...)
+	builderSections(c, NewRNG(c.Seed+1313))
 	o.Plan.Rule = "random histories of 1..7 AddDatum/Append calls over all constant kinds (U8..U64, I8..I64 with boundary values, F32/F64 incl. -0, subnormals, integral values and the double-rounding witness, byte strings incl. empty, quotes, NUL, 0xff), offsets touching/overlapping/beyond existing data; printed with printer.NewGoAsm; the first cases are also assembled, linked and read back with the real toolchain; non-trivial = at least two operations; distinct by operation list"
 	o.Plan.Stats["histories"] = n
 	o.Plan.Stats["histories_with_rejected_op"] = nerr
